@@ -1,5 +1,6 @@
 import HpxVerif.Lemmas.BitsLemmas
 import HpxVerif.Lemmas.UniqLemmas
+import HpxVerif.Lemmas.BmiLemmas
 
 /-!
 # C18 — bit-level encodings are exact: z-order interleaving and uniq numbers
@@ -215,5 +216,43 @@ theorem to_uniq_ivoa_injective (d h d' h' : Nat) (hd : d ≤ 29) (hh : h < 12 * 
 /-- non-vacuity -/
 example : toUniq 29 (12 * 4 ^ 29 - 1) = some 0x6FFFFFFFFFFFFFFF ∧ fromUniq 0x6FFFFFFFFFFFFFFF = some (29, 12 * 4 ^ 29 - 1) := by
   decide +kernel
+
+/-! ## the BMI2 (`pdep`/`pext`) variants: every implementation the crate can select agrees -/
+
+/-- the BMI2 masks regenerated from the source are the even / odd bit masks of 8, 16, 32 pairs -/
+theorem bmi_masks_spec :
+    IsEvenMask 8 0x5555 ∧ IsOddMask 8 0xAAAA ∧ IsEvenMask 16 0x55555555 ∧ IsOddMask 16 0xAAAAAAAA ∧
+    IsEvenMask 32 0x5555555555555555 ∧ IsOddMask 32 0xAAAAAAAAAAAAAAAA :=
+  ⟨mask_small_even, mask_small_odd, mask_mediu_even, mask_mediu_odd, mask_large_even, mask_large_odd⟩
+
+/-- `pdep`/`pext` (Intel SDM pseudo-code) with an even / odd mask are bit spreading / squeezing, for every operand -/
+theorem pdep_pext_spec {k w m : Nat} :
+    (IsEvenMask k m → 2 * k ≤ w + 1 → ∀ src, pdep w src m = spreadN k src ∧ pext w src m = squeezeN k src) ∧
+    (IsOddMask k m → 2 * k ≤ w → ∀ src, pdep w src m = spreadN k src <<< 1 ∧ pext w src m = squeezeN k (src / 2)) :=
+  ⟨fun hm hw src => ⟨pdep_even hm hw src, pext_even hm hw src⟩, fun hm hw src => ⟨pdep_odd hm hw src, pext_odd hm hw src⟩⟩
+
+theorem bmi_ij2h_spec (c : ZocClass) (i j : Nat) (hi : i < 2 ^ c.bits) (hj : j < 2 ^ c.bits) :
+    Bmi.ij2h c i j = interleave i j := Hpx.bmi_ij2h_spec c i j hi hj
+
+theorem bmi_h2ij_inverts (c : ZocClass) (i j : Nat) (hi : i < 2 ^ c.bits) (hj : j < 2 ^ c.bits) :
+    Lut.ij2i c (Bmi.h2ij c (Bmi.ij2h c i j)) = i ∧ Lut.ij2j c (Bmi.h2ij c (Bmi.ij2h c i j)) = j :=
+  Hpx.bmi_h2ij_inverts c i j hi hj
+
+/-- the BMI2 and LUT implementations are the same functions, on every argument (in range or not) -/
+theorem bmi_eq_lut (c : ZocClass) :
+    (∀ i j, Bmi.ij2h c i j = Lut.ij2h c i j) ∧ (∀ h, Bmi.h2ij c h = Lut.h2ij c h) ∧
+    (∀ i, Bmi.i02h c i = Lut.i02h c i) ∧ (∀ j, Bmi.oj2h c j = Lut.oj2h c j) :=
+  ⟨bmi_eq_lut_ij2h c, bmi_eq_lut_h2ij c, bmi_eq_lut_i02h c, bmi_eq_lut_oj2h c⟩
+
+/-- **the curve selected on a BMI2 build**: for every depth `≤ 29` and `i, j < 2^depth` it computes
+    `interleave i j < 4^depth`, is inverted by `h2ij`/`ij2i`/`ij2j`, `i02h`/`oj2h` are its restrictions, and it is the
+    same class and the same value as on a LUT build; `depth > 29` is rejected -/
+theorem zoc_bmi_correct (d i j : Nat) (hd : d ≤ 29) (hi : i < 2 ^ d) (hj : j < 2 ^ d) :
+    ∃ c, getZocBmi d = some c ∧ Bmi.ij2h c i j = interleave i j ∧ interleave i j < 4 ^ d ∧
+      Lut.ij2i c (Bmi.h2ij c (Bmi.ij2h c i j)) = i ∧ Lut.ij2j c (Bmi.h2ij c (Bmi.ij2h c i j)) = j ∧
+      Bmi.i02h c i = Bmi.ij2h c i 0 ∧ Bmi.oj2h c j = Bmi.ij2h c 0 j ∧
+      getZoc d = some c ∧ Bmi.ij2h c i j = Lut.ij2h c i j ∧
+      Bmi.h2ij c (Bmi.ij2h c i j) = Lut.h2ij c (Lut.ij2h c i j) ∧
+      Bmi.i02h c i = Lut.i02h c i ∧ Bmi.oj2h c j = Lut.oj2h c j := Hpx.zoc_bmi_correct d i j hd hi hj
 
 end Hpx.C18
